@@ -20,7 +20,7 @@ ID = 'C02'
 MANIFEST = dict(
     technique='explicit-state enumeration of the CTC matrix input tree x beam width x selector; real decoder vs brute-force CTC sum and a reference prefix beam search that explores every tie resolution',
     text='Bounded exhaustive: every matrix with T <= 4 (quick) / 5 (thorough) rows over a 12-row alphabet (C=3; ties, zeros, one-hot rows, entries straddling the pre-selection threshold, all-pruned rows) and T <= 3/4 over 7 rows (C=4), for k in {1,2,3,4,100} and both selectors. Distinctness, the no-over-count bound and exactness are checked against the full alignment sum; the pruned result against a textbook prefix beam search with all boundary-tie resolutions; un-normalised variants must be rejected. Added sub-sweeps: float32 input, one decoder object re-used across lines (and still rejecting un-normalised input), a non-pruning selector returning unsorted indices, lines of 260-520 frames against the forward recursion (validated against enumeration in setup), and the three-symbol matrices embedded in a 33 000-symbol output layer.',
-    note='Real-valued matrices outside the alphabet, T > 5 and C > 4 are not explored; scores compared within 1e-9.',
+    note='Real-valued matrices outside the alphabet, T > 5 and C > 5 are not explored; scores compared within 1e-9.',
     ref='3/C02')
 TH = math.exp(-10)   # 4.54e-5: the default pre-selection keeps logits > -10
 
@@ -40,16 +40,21 @@ ROWS4 = [
     [0.85, 0.05, 0.05, 0.05], [0.05, 0.85, 0.05, 0.05], [0.05, 0.05, 0.85, 0.05], [0.05, 0.05, 0.05, 0.85],
     [0.30, 0.30, 0.30, 0.10], [0.50, 4.0e-5, 0.25, 0.25 - 4.0e-5], [0.00, 0.00, 0.00, 1.00],
 ]
-LETTERS = {3: ['a', 'b', '<BLANK>'], 4: ['a', 'b', 'c', '<BLANK>']}
+# five classes: frames in which more symbols are relevant than the beam is wide, next to blank-only frames and frames with a single letter
+ROWS5 = [
+    [0.60, 0.00, 0.00, 0.00, 0.40], [0.00, 0.00, 0.00, 0.00, 1.00], [0.05, 0.20, 0.15, 0.10, 0.50],
+    [0.25, 0.25, 0.20, 0.20, 0.10], [0.05, 0.80, 0.05, 0.05, 0.05], [0.10, 0.10, 0.30, 0.30, 0.20],
+]
+LETTERS = {3: ['a', 'b', '<BLANK>'], 4: ['a', 'b', 'c', '<BLANK>'], 5: ['a', 'b', 'c', 'd', '<BLANK>']}
 KS = [1, 2, 3, 4, 100]
 SELS = ['default', 'all', 'all_desc']          # 'all_desc': a non-pruning selector that lists the symbols by decreasing score (unsorted indices)
-BOUNDS = {'quick': dict(T3=4, T4=3, Tunnorm=2), 'thorough': dict(T3=5, T4=4, Tunnorm=2)}
+BOUNDS = {'quick': dict(T3=4, T4=3, T5=3, Tunnorm=2), 'thorough': dict(T3=5, T4=4, T5=4, Tunnorm=2)}
 BOUNDS['replay'] = BOUNDS['quick']
 EPS = 1e-9
 
 
 def rows_for(C):
-    return ROWS3 if C == 3 else ROWS4
+    return {3: ROWS3, 4: ROWS4, 5: ROWS5}[C]
 
 
 def to_log(M):
@@ -88,7 +93,7 @@ def setup(tier):
 def shards(tier):
     b = BOUNDS[tier]
     out = []
-    for C, T in ((3, b['T3']), (4, b['T4'])):
+    for C, T in ((3, b['T3']), (4, b['T4']), (5, b['T5'])):
         R = len(rows_for(C))
         for t in range(1, T + 1):
             if t <= 2:
@@ -404,7 +409,7 @@ def check_case(case, ctx):
 def describe(tier):
     b = BOUNDS[tier]
     return {
-        'rule': 'every matrix with T<=T3 rows over the 12-row alphabet (C=3) and T<=T4 rows over the 7-row alphabet (C=4) '
+        'rule': 'every matrix with T<=T3 rows over the 12-row alphabet (C=3) and T<=T4 rows over the 7-row alphabet (C=4) and T<=T5 rows over the 6-row alphabet (C=5: more relevant symbols per frame than the beam is wide) '
                 'x k in {1,2,3,4,100} x {default, non-pruning} selector; plus 3 un-normalised variants of every row of every '
                 'matrix with T<=2. state = distinct matrix. Non-trivial: (matrix,k,selector) where the reference beam '
                 'actually dropped a finite candidate; counters report joins, all-pruned frames, selector pruning, boundary ties.',
